@@ -9,5 +9,6 @@ func main() {
 		"c43": c43,
 		"c36": c36,
 		"c36probe": c36probe,
+		"c08": c08,
 	})
 }
